@@ -1342,7 +1342,53 @@ class Interp:
             return ('guard-rest', fall)
         return False
 
+    def _nd_desugar(self, s):
+        """`for (y, x), v in np.ndenumerate(A)` / `for y, x in np.ndindex(r, c)` -> the nested range loops they abbreviate
+        (only without `break`, which would leave one loop instead of two)"""
+        it = s.iter
+        if not (isinstance(it, ast.Call) and isinstance(it.func, ast.Attribute) and it.func.attr in ('ndenumerate', 'ndindex')):
+            return None
+        if any(isinstance(x, ast.Break) for b_ in s.body for x in ast.walk(b_)) or s.orelse:
+            return None
+
+        def rng(e_):
+            return ast.Call(func=ast.Name(id='range', ctx=ast.Load()), args=[e_], keywords=[])
+
+        def shp(a_, k_):
+            return ast.Subscript(value=ast.Attribute(value=a_, attr='shape', ctx=ast.Load()), slice=ast.Constant(value=k_), ctx=ast.Load())
+        if it.func.attr == 'ndenumerate' and len(it.args) == 1 and isinstance(s.target, ast.Tuple) and len(s.target.elts) == 2 and \
+                isinstance(s.target.elts[0], ast.Tuple) and len(s.target.elts[0].elts) == 2 and isinstance(s.target.elts[1], ast.Name):
+            ty, tx = s.target.elts[0].elts
+            a_ = it.args[0]
+            val = ast.Assign(targets=[ast.Name(id=s.target.elts[1].id, ctx=ast.Store())],
+                             value=ast.Subscript(value=a_, slice=ast.Tuple(elts=[ast.Name(id=ty.id, ctx=ast.Load()), ast.Name(id=tx.id, ctx=ast.Load())], ctx=ast.Load()), ctx=ast.Load()))
+            inner = ast.For(target=tx, iter=rng(shp(a_, 1)), body=[val] + list(s.body), orelse=[])
+            outer = ast.For(target=ty, iter=rng(shp(a_, 0)), body=[inner], orelse=[])
+        elif it.func.attr == 'ndindex' and isinstance(s.target, ast.Tuple) and len(s.target.elts) == 2 and \
+                all(isinstance(t_, ast.Name) for t_ in s.target.elts):
+            ty, tx = s.target.elts
+            if len(it.args) == 2:
+                r_, c_ = it.args
+            elif len(it.args) == 1 and isinstance(it.args[0], ast.Attribute) and it.args[0].attr == 'shape':
+                r_, c_ = shp(it.args[0].value, 0), shp(it.args[0].value, 1)
+            elif len(it.args) == 1 and isinstance(it.args[0], ast.Tuple) and len(it.args[0].elts) == 2:
+                r_, c_ = it.args[0].elts
+            else:
+                return None
+            inner = ast.For(target=tx, iter=rng(c_), body=list(s.body), orelse=[])
+            outer = ast.For(target=ty, iter=rng(r_), body=[inner], orelse=[])
+        else:
+            return None
+        for n_ in ast.walk(outer):
+            if not hasattr(n_, 'lineno'):
+                ast.copy_location(n_, s)
+        ast.fix_missing_locations(outer)
+        return outer
+
     def st_For(self, s):
+        nd = self._nd_desugar(s)
+        if nd is not None:
+            return self.st_For(nd)
         it = self.ev(s.iter)
         if isinstance(it, tuple) and it and it[0] == 'iter' and it[1] in ('range', 'prange'):
             args = [self.as_scalar(a, s) for a in it[2]]
@@ -1420,6 +1466,12 @@ class Interp:
                     return self.read(v.arr, tuple(ax[1] for ax in axes))
                 return View(v.arr, axes)
             return hi - lo, mk
+        if isinstance(v, Rat):
+            ra = self.row_alias(v)
+            if ra is not None:
+                arr, idx = ra
+                k0 = len(idx)
+                return shape_sym(arr.name, k0), (lambda i, arr=arr, idx=idx: self.read(arr, idx + (i,)))
         if isinstance(v, tuple) and v and v[0] in ('cmp', 'and', 'or', 'not', 'truth'):
             arrs = [a.args[0] for a in walk_atoms(v) if isinstance(a, App) and a.name == 'arr' and a.args and a.args[0] in self.k.arrays]
             if not arrs:
@@ -1575,7 +1627,67 @@ class Interp:
                 upd[n] = (symv, post)
         return upd
 
+    def _counted_while(self, s):
+        """`i = a; while i < n [and extra]: BODY; i += 1` (or counting down) -> the `for i in range(a, n): if not extra: break;
+        BODY` it spells out.  Only when the counter is changed by the last statement alone and no `continue` skips it."""
+        tests = list(s.test.values) if isinstance(s.test, ast.BoolOp) and isinstance(s.test.op, ast.And) else [s.test]
+        if s.orelse or not s.body or not isinstance(s.body[-1], ast.AugAssign) or not isinstance(s.body[-1].target, ast.Name):
+            return None
+        inc = s.body[-1]
+        idx = inc.target.id
+        stepc = inc.value.value if isinstance(inc.value, ast.Constant) and isinstance(inc.value.value, int) else None
+        if stepc not in (1,) or not isinstance(inc.op, (ast.Add, ast.Sub)):
+            return None
+        step = stepc if isinstance(inc.op, ast.Add) else -stepc
+        body = s.body[:-1]
+        for b_ in body:
+            for x in ast.walk(b_):
+                if isinstance(x, ast.Continue):
+                    return None
+                if isinstance(x, ast.Name) and x.id == idx and isinstance(x.ctx, ast.Store):
+                    return None
+        bound = None
+        extra = []
+        for t in tests:
+            if bound is None and isinstance(t, ast.Compare) and len(t.ops) == 1 and isinstance(t.left, ast.Name) and t.left.id == idx and \
+                    not any(isinstance(x, ast.Name) and x.id == idx for x in ast.walk(t.comparators[0])):
+                op, b_ = t.ops[0], t.comparators[0]
+                if step > 0 and isinstance(op, ast.Lt):
+                    bound = b_
+                elif step > 0 and isinstance(op, ast.LtE):
+                    bound = ast.BinOp(left=b_, op=ast.Add(), right=ast.Constant(value=1))
+                elif step < 0 and isinstance(op, ast.GtE):
+                    bound = ast.BinOp(left=b_, op=ast.Sub(), right=ast.Constant(value=1))
+                elif step < 0 and isinstance(op, ast.Gt):
+                    bound = b_
+                else:
+                    return None
+            else:
+                extra.append(t)
+        if bound is None or idx not in self.env or not isinstance(self.env[idx], Rat):
+            return None
+        if any(isinstance(x, ast.Name) and x.id == idx for t in extra for x in ast.walk(t)):
+            return None
+        self.fresh += 1
+        start = '__start_%s_%d' % (idx, self.fresh)
+        self.env[start] = self.env[idx]
+        head = []
+        if extra:
+            cond = extra[0] if len(extra) == 1 else ast.BoolOp(op=ast.And(), values=extra)
+            head = [ast.If(test=ast.UnaryOp(op=ast.Not(), operand=cond), body=[ast.Break()], orelse=[])]
+        rng = ast.Call(func=ast.Name(id='range', ctx=ast.Load()),
+                       args=[ast.Name(id=start, ctx=ast.Load()), bound, ast.Constant(value=step)], keywords=[])
+        new = ast.For(target=ast.Name(id=idx, ctx=ast.Store()), iter=rng, body=head + list(body), orelse=[])
+        for n_ in ast.walk(new):
+            if not hasattr(n_, 'lineno'):
+                ast.copy_location(n_, s)
+        ast.fix_missing_locations(new)
+        return new
+
     def st_While(self, s):
+        cw = self._counted_while(s)
+        if cw is not None:
+            return self.st_For(cw)
         self.fresh += 1
         var = 'while@%d' % self.fresh
         loop = Loop(var, None, None, None, s, 'while')
